@@ -9,6 +9,7 @@ import (
 	"sort"
 	"strings"
 	"sync"
+	"sync/atomic"
 	"time"
 
 	tally "github.com/uber-go/tally/v4"
@@ -49,6 +50,8 @@ type m3Run struct {
 	callLo, callHi               map[string]int64 // per report id: wall clock just before the call / just after it returned
 	cid                          map[string]int   // report key (name#value) -> index of its call event (1-based, per execution)
 	tn                           map[string]int   // per thread: number of report calls made
+	emits                        atomic.Int64     // batches the batching goroutine has handed to the transport
+	received                     []int            // datagrams drained so far, per sink
 	metClosed                    bool
 	sinceSpin                    map[string]int
 	panics                       []string
@@ -83,8 +86,14 @@ func metricKindValue(m m3thrift.Metric) (string, string) {
 
 // drain decodes what the sinks received and logs one emit event per datagram
 func (r *m3Run) drain(commonWant map[string]string) {
+	if r.received == nil {
+		r.received = make([]int, len(r.sinks))
+	}
 	for si, s := range r.sinks {
-		for _, d := range s.drain(0) {
+		// what the sender is known to have emitted is waited for (loopback delivery may lag on a busy machine)
+		dgs := s.drainN(int(r.emits.Load())-r.received[si], 300*time.Millisecond)
+		r.received[si] += len(dgs)
+		for _, d := range dgs {
 			b, _, ok, why := decodeBatch(d, r.sc.Compact)
 			ev := M{"e": "emit", "dest": si + 1, "len": len(d), "ok": ok, "why": why, "mets": []M{}, "common_ok": true}
 			if ok {
@@ -155,7 +164,11 @@ func m3Execute(sc *m3Scenario, choose sched.Chooser) (ev []M, steps []sched.Step
 	s.Daemon["proc"] = true // an idle batching goroutine is not a deadlock; a Close waiting for it is
 	s.MayBlock["m3c_wait"] = true
 	s.StuckWait = 3 * time.Second
-	tally.VerifSetHook(s.Hook, func(point string, a, b int64, str string) {})
+	tally.VerifSetHook(s.Hook, func(point string, a, b int64, str string) {
+		if point == "m3p_emit" {
+			r.emits.Add(1) // the batching goroutine has handed a batch to the transport: one datagram per destination is on its way
+		}
+	})
 	defer tally.VerifSetHook(nil, nil)
 	dests := sc.Dests
 	if dests < 1 {
@@ -260,6 +273,9 @@ func m3Execute(sc *m3Scenario, choose sched.Chooser) (ev []M, steps []sched.Step
 		if kind == "bucket" {
 			// ValueBuckets{1, 2}.ValueBucket(1, 2) is the second of three buckets: the bucket tags the reporter appends
 			want = map[string]string{"bucketid": "0001", "bucket": "1.000000-2.000000"}
+			if strings.HasSuffix(sc.Name, "-dur") {
+				want["bucket"] = "1s-2s"
+			}
 			for k2, v2 := range tags {
 				want[k2] = v2
 			}
@@ -291,7 +307,11 @@ func m3Execute(sc *m3Scenario, choose sched.Chooser) (ev []M, steps []sched.Step
 	kinds := []string{"counter", "gauge", "timer", "bucket"}
 	var sharedBucket tally.CachedHistogramBucket
 	if sc.SameBucket {
-		sharedBucket = rep.AllocateHistogram("hshared", map[string]string{"t": "all"}, tally.ValueBuckets{1, 2}).ValueBucket(1, 2)
+		if strings.HasSuffix(sc.Name, "-dur") {
+			sharedBucket = rep.AllocateHistogram("hshared", map[string]string{"t": "all"}, tally.DurationBuckets{time.Second, 2 * time.Second}).DurationBucket(time.Second, 2*time.Second)
+		} else {
+			sharedBucket = rep.AllocateHistogram("hshared", map[string]string{"t": "all"}, tally.ValueBuckets{1, 2}).ValueBucket(1, 2)
+		}
 	}
 	for pi := 0; pi < sc.Producers; pi++ {
 		t := fmt.Sprintf("p%d", pi+1)
@@ -534,6 +554,7 @@ func m3Scenarios(tier string) []m3Set {
 		// two goroutines report through ONE bucket handle (what two overlapping report passes over a histogram do):
 		// every interleaving of "store the value in the handle" / "hand the metric to the reporter"
 		{&m3Scenario{Name: "same-bucket-dfs", Producers: 2, NRep: 1, QCap: 4, Compact: true, SameBucket: true, Points: []string{"m3b_set", "m3r_inc"}}, "dfs", q(400)},
+		{&m3Scenario{Name: "same-bucket-dfs-dur", Producers: 2, NRep: 1, QCap: 4, Compact: false, SameBucket: true, Points: []string{"m3b_set", "m3r_inc"}}, "dfs", q(400)},
 		{&m3Scenario{Name: "no-close-3p-f", Producers: 3, NRep: 2, Flushers: 1, QCap: 1, Compact: true}, "random", q(100)},
 	}
 }
